@@ -379,7 +379,7 @@ func faultName(c c16Case) string {
 
 func runC16(r *ev.Run, rep *ev.ReplayDoc) ev.Summary {
 	sum := ev.Summary{
-		Rule: "all mechanisms (PLAIN, LOGIN, CRAM-MD5, XOAUTH2, SCRAM-SHA-1/-256, -PLUS over TLS) x random high-entropy credentials (also with '%', blanks, non-ASCII, base64 specials) x server scripts {success, wrong password, 535 / 454 / malformed (non-base64) challenge / unexpected extra challenge / disconnect at every step of the exchange, the client closed or quit by another goroutine between two steps, Auth called again on the same smtp.Client after a failed exchange} x {capturing custom logger, log.Stdlog, log.JSONlog} x {default, SetLogAuthData(false)} x {mail.Client with a built-in auth type, mail.Client with WithSMTPAuthCustom, smtp.Client.Auth as first command} x server announcing {the mechanism, no AUTH keyword, other mechanisms only, HELO only} (the server accepts the command regardless), debug logging on; if the connection survives a message with marker addresses is sent. A control group with WithLogAuthData shows that the monitor sees secrets when they are logged. distinct by case",
+		Rule: "all mechanisms (PLAIN, LOGIN, CRAM-MD5, XOAUTH2, SCRAM-SHA-1/-256, -PLUS over TLS) x random high-entropy credentials (also with '%', blanks, non-ASCII, base64 specials) x server scripts {success, wrong password, 535 / 454 / malformed (non-base64) challenge / unexpected extra challenge / the user-name prompt repeated in place of the expected challenge / disconnect at every step of the exchange, the client closed or quit by another goroutine between two steps, Auth called again on the same smtp.Client after a failed exchange} x {capturing custom logger, log.Stdlog, log.JSONlog} x {default, SetLogAuthData(false)} x {mail.Client with a built-in auth type, mail.Client with WithSMTPAuthCustom, smtp.Client.Auth as first command} x server announcing {the mechanism, no AUTH keyword, other mechanisms only, HELO only} (the server accepts the command regardless), debug logging on; if the connection survives a message with marker addresses is sent. A control group with WithLogAuthData shows that the monitor sees secrets when they are logged. distinct by case",
 		Assumptions: []string{
 			"the server never echoes credentials in its reply texts (an echoing server is outside the quantifier)",
 			"forms searched: raw, base64 (std/url/raw), hex, Go-quoted, every client line of the AUTH exchange whose base64 decoding contains the secret, and that decoded text",
@@ -396,7 +396,7 @@ func runC16(r *ev.Run, rep *ev.ReplayDoc) ev.Summary {
 		return sum
 	}
 	mechs := []string{"PLAIN", "LOGIN", "CRAM-MD5", "XOAUTH2", "SCRAM-SHA-1", "SCRAM-SHA-256", "SCRAM-SHA-256-PLUS", "SCRAM-SHA-1-PLUS"}
-	faults := []string{"", "535", "454", "malformed", "extra", "drop"}
+	faults := []string{"", "535", "454", "malformed", "extra", "drop", "reprompt", "reprompt-ok"}
 	loggers := []string{"custom", "std", "json"}
 	var cases []c16Case
 	n := 0
